@@ -48,6 +48,14 @@ class Installed:
             shim.Queue = O.SimQueue
             shim.SimpleQueue = O.SimQueue
             self._set(server, 'queue', shim)
+        # plain threads the server may create besides its seat threads (PlayerThread subclasses the real Thread at import
+        # time and is handled below)
+        if getattr(server, 'Thread', None) is real_threading.Thread:
+            self._set(server, 'Thread', O.SimThread)
+        if isinstance(getattr(server, 'threading', None), types.SimpleNamespace):
+            server.threading.Thread = O.SimThread
+        # real Queue / Event / Barrier objects (subclasses, objects created at import time) are routed to simulated twins
+        self._undo_route = O.route_real_primitives()
         self.simtime = O.SimTime()
         if hasattr(server, 'time'):
             self._set(server, 'time', self.simtime)
@@ -94,6 +102,9 @@ class Installed:
             else:
                 setattr(obj, name, old)
         self._saved = []
+        if getattr(self, '_undo_route', None):
+            self._undo_route()
+            self._undo_route = None
         logging.disable(self._log_disabled)
         O.set_kernel(None)
 
